@@ -187,6 +187,9 @@ impl ServerState {
             while let Ok(msg) = rx.recv() {
                 match msg {
                     TaskMessage::CompilationContext(ctx) => {
+                        // A retrigger request that is still set was meant for a compilation that has
+                        // already finished. It must not cancel the one we are about to start.
+                        retrigger_compilation.store(false, Ordering::SeqCst);
                         let uri = &ctx.uri;
                         let path = uri.to_file_path().unwrap();
                         let mut engines_clone = ctx.engines.read().clone();
@@ -304,6 +307,10 @@ impl ServerState {
     /// this process until `is_compiling` becomes false.
     pub async fn wait_for_parsing(&self) {
         loop {
+            // Register for the notification before checking the state. `notify_waiters` only wakes
+            // futures that already exist, so one created after the check could miss the wake-up
+            // of a compilation that finishes in between, and wait forever.
+            let finished_compilation = self.finished_compilation.notified();
             // Check both the is_compiling flag and the last_compilation_state.
             // Wait if is_compiling is true or if the last_compilation_state is Uninitialized.
             if !self.is_compiling.load(Ordering::SeqCst)
@@ -316,7 +323,7 @@ impl ServerState {
                 }
             }
             // We are still compiling, lets wait to be notified.
-            self.finished_compilation.notified().await;
+            finished_compilation.await;
         }
     }
 
